@@ -50,6 +50,9 @@ class World:
             elif beh == 'f':
                 cfg['status'] = 'close'
                 cfg['script'] = [('close',)]
+            elif beh == 's':          # answers a status request and the ping, like a real server; logs a client in silently
+                cfg['status'] = ('json', '{"version":{"name":"x","protocol":757},"description":"s"}')
+                cfg['script'] = [('success',)]
             elif beh == 'z':          # switches compression on, logs the client in and drops the TCP connection
                 cfg['script'] = [('compress', 64), ('success',), ('close',)]
             elif beh == 'Z':          # switches compression on, logs the client in, then a play-state disconnect
@@ -92,6 +95,12 @@ class World:
                 threading.Thread.start(self)
 
             def join(self, timeout=None):
+                if timeout is not None:
+                    # a bounded wait may also end because the time is up: the waiting thread simply goes on, whether or not
+                    # the thread waited for has ended (always enabled; the scheduler decides which of the two happened)
+                    S.before('joint', self.sched_tid)
+                    S.emit('joint', self.sched_tid, int(S.state.get(self.sched_tid) in ('done', None)))
+                    return
                 S.before('join', self.sched_tid)
                 S.emit('join', self.sched_tid)
 
@@ -227,19 +236,33 @@ class World:
                 conn.connect()
             elif op == 's':
                 conn.status(handle_status=False, handle_ping=False)
+            elif op == 'sp':
+                # a status query whose latency handler goes on to use the object (ping, then log in): by the time a handler
+                # of a finished query runs, the object must accept a new connection
+                world = self
+
+                def on_ping(ms):
+                    world.events.append(('ping-handler',))
+                    try:
+                        conn.connect()
+                        world.events.append(('ping-handler-connected', len(world.net.connects)))
+                    except InvalidState:
+                        world.events.append(('ping-handler-refused',))
+                        raise
+                conn.status(handle_status=False, handle_ping=on_ping)
             elif op == 'd0':
                 conn.disconnect()
             elif op == 'd1':
                 conn.disconnect(immediate=True)
             outcomes.append('ok')
-            if op in ('c', 's'):
+            if op in ('c', 's', 'sp'):
                 self.events.append(('connected', len(self.S.log), len(self.net.connects)))
             else:
                 self.events.append(('disconnect-call', len(self.S.log)))
         except InvalidState:
             outcomes.append('invalid')
             mine = [e for e in self.io[io_mark:] if e[0] == self.S.me() and e[1] in ('connect', 'refused', 'send', 'close')]
-            if op in ('c', 's') and mine:
+            if op in ('c', 's', 'sp') and mine:
                 self.events.append(('disturbed', op, mine[:3]))
         except ConnectionRefusedError:
             outcomes.append('refused')
@@ -413,6 +436,10 @@ def oracle(ctx, servers, rl, rh, progs, r, label):
                 bad = 'the server of connection #%d cannot read the client\'s first frames (handshake %r, parse errors %r): %s' % (
                     k + 1, hs, errs, why)
                 break
+    if not bad and any(e[0] == 'ping-handler-refused' for e in r['events']):
+        bad = 'connect() from the latency handler of a status query (the query is over: its pong has been received) was refused ' \
+              'with an invalid-state error'
+        key_kind = 'ping-handler-reconnect-refused'
     dist = [e for e in r['events'] if e[0] == 'disturbed']
     if dist and not bad:
         bad = 'a refused %s (InvalidState) nevertheless performed socket operations on behalf of the caller: %r' % (
@@ -545,6 +572,20 @@ def run(ctx):
                  sample={'kind': 'held-reaction', 'servers': servers, 'held_before': hold, 'ops': ops, 'outcomes': r['outs']})
         ctx.count('held-reaction.' + hold.replace(' ', '-'))
         oracle(ctx, servers, 0, 0, [ops], r, 'reaction to %r held back while the user thread disconnects and reconnects' % hold)
+    # ---- a status query with a latency handler that logs in on the same object (ping, then connect): sequential and random
+    for i in range(ctx.scale(10, 60)):
+        servers = ['s', 'a', 'a', 'a']
+        r = run_world(C, servers, 0, 0, [['sp']], 'sequential' if i % 2 == 0 else 'random', rng)
+        ctx.case(('ping-then-connect', i % 2, tuple(r['ran'])), sample={'kind': 'ping-then-connect', 'outcomes': r['outs'], 'events': r['events'][:6]})
+        ctx.count('ping-then-connect')
+        evs = [e[0] for e in r['events']]
+        if not r['stuck'] and 'ping-handler' in evs and 'ping-handler-refused' not in evs and \
+                not (r['connected'] and r['sock'] and r['alive'] and r['conns'] == 2):
+            ctx.violation('status() with a latency handler that calls connect(): the handler\'s connect() returned normally (accepting '
+                          'server) but at rest the object is not connected (connected=%s socket=%s live threads=%r connections made=%d)'
+                          % (r['connected'], r['sock'], r['alive'], r['conns']),
+                          {'schedule': r['ran'][:200], 'events': r['events'][:8]}, key={'kind': 'ping-handler-connection-lost'})
+        oracle(ctx, servers, 0, 0, [['sp']], r, 'status query whose latency handler connects')
     ends_tie(ctx)
     # ---- Model/C16Carry.lean: the object across sessions, operation by operation (corr/c16carry.py)
     from corr import c16carry
